@@ -24,6 +24,9 @@ typedef struct {
 
 	bool compress;
 	bool initialized;
+
+	/* decompressor only: input consumed since the last end of stream */
+	bool mid_stream;
 } xfrm_xz_t;
 
 static const lzma_action xzlib_action[] = {
@@ -79,9 +82,11 @@ static int process_data(xfrm_stream_t *stream, const void *in,
 	if (flush_mode < 0 || flush_mode >= XFRM_STREAM_FLUSH_COUNT)
 		flush_mode = XFRM_STREAM_FLUSH_NONE;
 
-	while ((in_size > 0 || (xz->compress &&
-				flush_mode == XFRM_STREAM_FLUSH_FULL)) &&
+	while ((in_size > 0 || (flush_mode == XFRM_STREAM_FLUSH_FULL &&
+				(xz->compress || xz->mid_stream))) &&
 	       out_size > 0) {
+		bool at_eof = (in_size == 0);
+
 		xz->strm.next_in = in;
 		xz->strm.avail_in = in_size;
 
@@ -100,10 +105,22 @@ static int process_data(xfrm_stream_t *stream, const void *in,
 		in_size -= diff;
 		*in_read += diff;
 
+		if (diff > 0)
+			xz->mid_stream = true;
+
 		diff = out_size - xz->strm.avail_out;
 		out = (char *)out + diff;
 		out_size -= diff;
 		*out_written += diff;
+
+		/* the input ended in the middle of a compressed stream */
+		if (!xz->compress && at_eof && diff == 0 &&
+		    ret_xz != LZMA_STREAM_END) {
+			return XFRM_STREAM_ERROR;
+		}
+
+		if (ret_xz == LZMA_STREAM_END)
+			xz->mid_stream = false;
 
 		if (ret_xz == LZMA_BUF_ERROR)
 			return XFRM_STREAM_BUFFER_FULL;
